@@ -425,7 +425,16 @@ def penalty_order_real(costs):
     a = lra_.LongReadAssigner.__new__(lra_.LongReadAssigner)
     a.params = Params()
     a.resolve_by_nucleotide_score = lambda profile, isoforms, similarity_function=None, top_scored_factor=None: list(isoforms)
-    best, score = a.select_best_among_inconsistent(None, {"T_fwd": list(events), "T_rev": list(reversed(events))})
+    # this lane is about binary floating point: the function must see the REAL math module, not the exact-real shim
+    import math as real_math
+    shimmed = lra_.__dict__.get("math")
+    if shimmed is not None:
+        lra_.math = real_math
+    try:
+        best, score = a.select_best_among_inconsistent(None, {"T_fwd": list(events), "T_rev": list(reversed(events))})
+    finally:
+        if shimmed is not None:
+            lra_.math = shimmed
     return sorted(best), score
 
 
